@@ -49,11 +49,13 @@ def ring_scenarios(tier, variant='plain', want=None, wide=False):
                 tags = scen.tags_of(r)
                 if want and not want(tags, r):
                     continue
-                if variant == 'plain':
-                    out.append(scen.build(r, 'r%d-%d' % (n, k)))
-                else:
-                    route, pat = variant.split(':')
-                    out.append(scen.build(r, 'r%d-%d-%s-%s' % (n, k, route, pat), route=route, poison=pat))
+                for mode in scen.byval_variants(r, tier):
+                    sfx = '-m%d' % mode if mode else ''
+                    if variant == 'plain':
+                        out.append(scen.build(r, 'r%d-%d%s' % (n, k, sfx), mode=mode))
+                    else:
+                        route, pat = variant.split(':')
+                        out.append(scen.build(r, 'r%d-%d-%s-%s%s' % (n, k, route, pat, sfx), route=route, poison=pat, mode=mode))
     return out, stats
 
 
@@ -314,15 +316,63 @@ def check_ring(pid, tier, t0):
                     if min(len(pair['a']['vals']), len(pair['b']['vals'])) > 0:
                         obf.append(scen.obs_fault_build(pair, 'obf%d_%d-%d' % (n, m, k), k))
         units.append(run_unit('obs-fault-%s' % tier, obf))
+    build_viol = []
     if pid == 'C17':
         # byte buffers through std::io (every provided method the traits offer is a call the crate may override)
         ios, iostats = io_scenarios(tier, ['std'])
         units.append(run_unit('io-std-%s-%d' % (tier, seed()), ios))
+        # the second sentence of the property is a fact about builds, outside any model: build the crate in the two
+        # configurations and read the crates its library links against from the metadata
+        cov['feature_builds'] = crate_config_builds()
+        build_viol = [b for b in cov['feature_builds'] if not b['ok']]
     if pid == 'C12':
         # constructors and conversions under injected faults (their ownership clauses are labelled C12 too)
         fs, fstats = ring_scenarios(tier, 'plain', lambda t, r: FAULTY(t))
         units.append(run_unit('ring-fault-%s' % tier, fs))
-    return judge(pid, units, tier, t0, 'model_checking', cov, COMMON_ASSUME)
+    rc = judge(pid, units, tier, t0, 'model_checking', cov, COMMON_ASSUME)
+    if build_viol and rc != 2:
+        vdir = core.ensure(os.path.join(OUT, 'violations', pid))
+        for b in build_viol:
+            path = os.path.join(vdir, 'build_%s.json' % b['config'])
+            json.dump(dict(b, property=pid, replay_cmd=b['cmd']), open(path, 'w'), indent=1)
+            log('VIOLATION property=%s replay=%s  (%s: %s)' % (pid, path, b['config'], b['why']))
+        ev = json.load(open(os.path.join(core.EVID, pid + '.json')))
+        ev['violations'] = ev.get('violations', 0) + len(build_viol)
+        core.write_evidence(pid, ev)
+        return 1
+    return rc
+
+
+CRATE_CONFIGS = [('no-default-features', ['--no-default-features'], {'core', 'compiler_builtins'}),
+                 ('alloc-only', ['--no-default-features', '--features', 'alloc'], {'core', 'compiler_builtins', 'alloc'})]
+
+
+def crate_config_builds():
+    """build the library itself (nightly, so that `rustc -Zls=root` can list what the rlib links against) with
+    default features off and with only `alloc`; a build error or a dependency on std / alloc is a violation"""
+    import subprocess
+    res = []
+    for name, args, allowed in CRATE_CONFIGS:
+        tdir = os.path.join(OUT, 'build', 'crate-%s-%s' % (name, core.sha(core.REPO)[:8]))
+        cmd = ['cargo', '+nightly', 'build', '--offline', '--lib', '--manifest-path', os.path.join(core.REPO, 'Cargo.toml'), '--target-dir', tdir] + args
+        env = dict(os.environ, CARGO_NET_OFFLINE='true')
+        p = subprocess.run(cmd, env=env, stdout=subprocess.PIPE, stderr=subprocess.STDOUT)
+        out = p.stdout.decode('utf-8', 'replace')
+        r = {'config': name, 'cmd': ' '.join(cmd), 'ok': True, 'why': '', 'links': []}
+        if p.returncode != 0:
+            r.update(ok=False, why='the crate does not build in this configuration', output=out[-3000:])
+        else:
+            rlib = os.path.join(tdir, 'debug', 'libcircular_buffer.rlib')
+            q = subprocess.run(['rustc', '+nightly', '-Zls=root', rlib], stdout=subprocess.PIPE, stderr=subprocess.STDOUT)
+            deps = re.findall(r'^\d+ ([A-Za-z0-9_]+)-[0-9a-f]+ hash', q.stdout.decode('utf-8', 'replace'), re.M)
+            r['links'] = deps
+            if q.returncode != 0 or not deps:
+                raise ToolError('cannot read the crate metadata of %s:\n%s' % (rlib, q.stdout.decode('utf-8', 'replace')[-1500:]))
+            bad = sorted(set(deps) - allowed)
+            if bad:
+                r.update(ok=False, why='the library links against %s in this configuration' % ', '.join([d for d in bad if d in ('std', 'alloc')] or bad[:3]))
+        res.append(r)
+    return res
 
 
 RAND_NS = [1, 2, 3, 5, 8, 16, 33]
@@ -358,6 +408,10 @@ def check_c04(tier, t0):
             dg = d2.get(sc['id'])
             if dg and dg != '0000000000000000':
                 groups.setdefault(sc['grp'], {}).setdefault(dg, []).append(sc)
+    # a primitive element type (u8), where slice-at-a-time fast paths exist: Hash / == / cmp / Debug / clone() against
+    # a fresh buffer with the same contents, from every layout and in random histories
+    ios, iostats = io_scenarios(tier, ['std'])
+    units.append(run_unit('io-std-%s-%d' % (tier, seed()), ios))
     # indistinguishability: within a group (same logical contents, same calls; different physical front position, route
     # to the layout, garbage) every run must show the client the same thing
     split = [g for g in groups.values() if len(g) > 1]
@@ -396,9 +450,13 @@ def io_scenarios(tier, fams):
         for k, r in enumerate(scen.load_raw(raw)):
             for fam in fams:
                 out.append(scen.io_build(r, 'io%d-%d-%s' % (n, k, fam), fam))
-            if r['evs'][0]['op'] in ('read', 'fill_buf', 'consume'):
+            if r['evs'][0]['op'] in ('read', 'fill_buf', 'consume', 'hash', 'read_to_end', 'read_to_string', 'read_until', 'read_vectored'):
                 pat = ['00', 'ff', '5a'][k % 3]
                 out.append(scen.io_build(r, 'io%d-%d-%s-p%s' % (n, k, fams[k % len(fams)], pat), fams[k % len(fams)], poison=pat))
+            if r['evs'][0]['op'] in ('read_to_string', 'hash'):
+                # text whose two-byte characters straddle the wrap point of the layout, and bytes that are not text
+                for fill in ('u0', 'u1', 'bad'):
+                    out.append(scen.io_build(r, 'io%d-%d-%s-%s' % (n, k, fams[0], fill), fams[0], fill=fill))
     rnd = random.Random(seed())
     nrand = 150 if tier == 'quick' else 1500
     for n in [0, 1, 2, 3, 5, 8, 16, 33]:
@@ -452,11 +510,16 @@ def check_c13(tier, t0):
             for k, pair in enumerate(scen.load_raw(raw)):
                 scs.append(scen.obs_build(pair, 'ob%d_%d-%d' % (n, m, k), k))
     u = run_unit('obs-%s' % tier, scs)
+    # observers on a primitive element type (u8): what a Hasher is fed, ==, cmp, Debug, clone() against a fresh buffer
+    ios, iostats = io_scenarios(tier, ['std'])
+    uio = run_unit('io-std-%s-%d' % (tier, seed()), ios)
     cov = {'l1_states': sum(s['states'] for s in stats), 'l1_transitions': sum(s['transitions'] for s in stats),
            'bounds': {'capacity_pairs': '0..%d x 0..%d' % (top, top), 'alphabet': [0, 1]},
            'pairs': len(scs), 'samples': sample_of(scs, 2),
            'states_note': 'l1_* = exhaustive TLC run of spec/Observers.tla (theorem: the segment-wise algorithms equal sequence equality / order / hash feed for every pair of physical states)'}
-    return judge('C13', [u], tier, t0, 'model_checking', cov, COMMON_ASSUME + [
+    return judge('C13', [u, uio], tier, t0, 'model_checking', cov, COMMON_ASSUME + [
+        'for byte buffers the sequence of Hasher::write calls (with their boundaries) is compared with that of a fresh buffer holding the same bytes',
+
         'Debug output is compared with the same formatting of the equivalent slice of payloads, under 11 formatter flag combinations (rotated over the pairs)',
         'hash equality is checked with std DefaultHasher on buffers of equal capacity'])
 
@@ -657,7 +720,8 @@ def setup(argv):
     import concurrent.futures as cf
     ns = ring_ns('thorough' if '--thorough' in argv else 'quick')
     jobs = [(n, None) for n in ns if n <= 4] + [(n, ['conv', 'faults']) for n in ns if n <= 4] + [(n, ['io']) for n in ([0, 1, 2, 3] if '--thorough' not in argv else [0, 1, 2, 3, 4, 5])]
-    with cf.ThreadPoolExecutor(max_workers=6) as ex:
+    with cf.ThreadPoolExecutor(max_workers=11) as ex:
+        zjobs = {nm: ex.submit(scen.z_raw, nm) for nm in (7, 6, 5, 4, 3)}      # the longest ones first
         for raw, st in ex.map(lambda j: scen.ring_raw(j[0], families=j[1]), jobs):
             log('Ring.tla N=%d %s: %d states, %d scenarios, refinement holds (%.0fs)' % (st['n'], ','.join(st['families']) if len(st['families']) < 5 else 'all', st['states'], st['scenarios'], st['wall_s']))
         for raw, st in ex.map(lambda n: scen.ring_raw(n, families=WIDE_FAMILIES), wide_ns('thorough' if '--thorough' in argv else 'quick')):
@@ -678,7 +742,7 @@ def setup(argv):
         if not r['ok']:
             return 2
     for nm in (7, 6, 5, 4, 3):
-        raw, st = scen.z_raw(nm)
+        raw, st = zjobs[nm].result()
         log('Ring.tla 3-bit word, N=%d: %d states, refinement holds (%.0fs)' % (nm, st['states'], st['wall_s']))
     log('setup done in %.0fs' % (time.time() - t0))
     return 0
